@@ -198,6 +198,15 @@ impl Model {
 
     /// match one component in a directory: by folded given name or by folded alias
     pub fn lookup(&self, dir: Nid, comp: &str) -> Option<Nid> {
+        // dot components resolve like the dot entries every subdirectory has (the root has none)
+        if dir != ROOT && self.is_dir(dir) {
+            if comp == "." {
+                return Some(dir);
+            }
+            if comp == ".." {
+                return Some(self.nodes[&dir].parent);
+            }
+        }
         let ch = self.children(dir)?;
         let f = self.fold(comp);
         if let Some(n) = ch.get(&f) {
